@@ -240,6 +240,16 @@ def random_network(rng, quick=True, force=None):
                                  "thr": round((tk["min"] + tk["max"]) / 2, 2), "link": "PU0", "act": "base_speed", "value": 1.0,
                                  "prio": rng.choice([0, 1, 2, 3, 4, 5, 6])})
         cid += 1
+    # RULES with a tank-level premise (evaluated on the rule grid inside the presolve pass)
+    if force.get("rules", rng.random() < 0.3):
+        for _ in range(rng.choice([1, 2])):
+            tk = rng.choice(spec["tanks"])
+            if tk["curve"] is not None:
+                continue
+            spec["controls"].append({"name": "c%d" % cid, "kind": "rule", "src": tk["name"], "attr": "level", "rel": rng.choice(["ge", "le"]),
+                                     "thr": round(rng.uniform(tk["min"] + 0.2, tk["max"] - 0.2), 2), "link": rng.choice(["PU0"] + links),
+                                     "value": rng.choice(["OPEN", "CLOSED"]), "prio": rng.choice([1, 3, 3, 5])})
+            cid += 1
     # user TIME controls with non-default priorities: a link toggled at successive instants (on the hydraulic grid ->
     # backtrack 0, or inside a step), so that in the step where a tank limit / level threshold is crossed another presolve
     # control of a different priority regularly changes something too
@@ -256,6 +266,16 @@ def random_network(rng, quick=True, force=None):
                 spec["controls"].append({"name": "c%d" % cid, "kind": "time", "time": k * hyd - off, "link": link, "value": val, "prio": prio})
                 cid += 1
     return spec
+
+
+def rule_level_spec(simple_too=True):
+    """a RULE with a tank-level premise, rule timestep (360 s) shorter than the hydraulic step: the rule fires at the first rule
+    instant after the crossing; optionally a simple level control on the same tank whose partial step interleaves with the rule grid"""
+    s = two_threshold_spec(False, True)
+    s["controls"][0].update({"kind": "rule", "name": "r0"})
+    if not simple_too:
+        s["controls"] = s["controls"][:1]
+    return s
 
 
 def companion_priority_spec(kind="valve", close_first=False):
@@ -523,6 +543,11 @@ def build_wn(wntr, spec, report="ALL"):
             continue
         src = wn.get_node(c["src"])
         cond = ValueCondition(src, c["attr"], REL_NAMES[c["rel"]], c["thr"])
+        if c.get("kind", "cond") == "rule":
+            from wntr.network.controls import Rule
+
+            wn.add_control(c["name"], Rule(cond, [act], priority=ControlPriority(c["prio"])))
+            continue
         wn.add_control(c["name"], Control(cond, act, priority=ControlPriority(c["prio"])))
     return wn
 
@@ -703,10 +728,21 @@ def run_instrumented(spec, report="ALL", wn=None, keep_wn=False):
         orig = _with_check(self._presolve_controls, got)
         before = _fields(w, names)
         t0 = w.sim_time
+        ri0 = self._rule_iter
+        rule_calls = []
+        orig_rcheck = self._rules.check
+
+        def rcheck():
+            out = orig_rcheck()
+            rule_calls.append((w.sim_time, [r for r, _ in out]))
+            return out
+
+        self._rules.check = rcheck
         try:
             orig_pre(self, first_step)
         finally:
             del self._presolve_controls.check
+            del self._rules.check
         due = []
         ok = len(got) == 1
         if ok:
@@ -717,8 +753,24 @@ def run_instrumented(spec, report="ALL", wn=None, keep_wn=False):
                     break
                 due.append(d + (int(b),))
         has_rules = len(self._rules._controls) > 0
+        table = []
+        rules_ok = True
+        for (tt, rules) in rule_calls:
+            acts = []
+            for ru in rules:
+                for a in (ru._then_actions if ru._which == "then" else ru._else_actions):
+                    field = {"_user_status": "user", "_setting": "setting", "base_speed": "speed"}.get(getattr(a, "_private_attribute", None))
+                    if field is None or a._target_obj.name not in names:
+                        rules_ok = False
+                    else:
+                        acts.append((int(ru._priority), names.index(a._target_obj.name), field, float(a._value)))
+            if float(tt) != int(tt):
+                rules_ok = False
+            table.append((int(tt), acts))
         tr.pre.append(dict(first=bool(first_step), t0=t0, t1=w.sim_time, before=before, after=_fields(w, names), due=due,
-                           usable=ok and not has_rules and float(t0) == int(t0)))
+                           usable=ok and not has_rules and float(t0) == int(t0),
+                           usable_rules=ok and has_rules and rules_ok and float(t0) == int(t0), rules=table, ri0=int(ri0), ri1=int(self._rule_iter),
+                           rule_step=int(w.options.time.rule_timestep)))
 
     def post(self):
         w = self._wn
